@@ -64,6 +64,8 @@ def step (st : St) : List String → St × String
     | some u, some d => (st.setFile u (.content d), "ok")
     | _, _ => (st, "bad-op")
   -- the authorized_keys file of the account the server runs as: no user's file, it authorizes nobody here
+  -- the session's first tube is not a reliable user-authorization tube: refused, nothing changes
+  | ["badlogin", k] => if k = "unrel" ∨ k = "othertype" then (st, "reject") else (st, "bad-op")
   | ["srvfile", d] => match fromHex d with
     | some _ => (st, "ok")
     | none => (st, "bad-op")
